@@ -2,7 +2,12 @@ package protos
 
 import (
 	"fmt"
+	"github.com/taurusgroup/multi-party-sig/internal/types"
+	"github.com/taurusgroup/multi-party-sig/pkg/hash"
+	"github.com/taurusgroup/multi-party-sig/pkg/pedersen"
+	zksch "github.com/taurusgroup/multi-party-sig/pkg/zk/sch"
 	"reflect"
+	"strings"
 	"unsafe"
 
 	"github.com/cronokirby/saferith"
@@ -26,6 +31,9 @@ var CheatRules = []string{"delta", "gamma", "x-chi", "chi"}
 type cheat struct {
 	rule    string
 	observe func(next round.Session) // sees every round the cheater enters (nil: none)
+	// commit cheat: the malformed value is committed to consistently (see CommitCheat)
+	commitRule string
+	newCommit  interface{}
 }
 
 func typeName(s interface{}) string {
@@ -95,7 +103,76 @@ func (c *cheat) after(next round.Session) {
 	}
 }
 
+func malformRID(b types.RID, how string) types.RID {
+	switch how {
+	case "short":
+		return types.RID{0x5a}
+	case "long":
+		return append(append(types.RID{}, b...), 0x5a)
+	case "empty":
+		return types.RID{}
+	}
+	return b
+}
+
+// recommit: after round 1 of a key generation / refresh the cheater replaces the chain-key contribution (or the RID) it
+// just committed to by a malformed one and commits again, so that its later opening is consistent.
+func (c *cheat) recommit(next round.Session) {
+	if c.commitRule == "" || typeName(next) != "round2" || c.newCommit != nil {
+		return
+	}
+	hf, ok := next.(interface{ HashForID(party.ID) *hash.Hash })
+	if !ok {
+		return
+	}
+	what, how := c.commitRule[:strings.Index(c.commitRule, "-")], c.commitRule[strings.Index(c.commitRule, "-")+1:]
+	self := reflect.ValueOf(next.SelfID())
+	cks := field(next, "ChainKeys")
+	if !cks.IsValid() || !cks.MapIndex(self).IsValid() {
+		return
+	}
+	ck := cks.MapIndex(self).Interface().(types.RID)
+	if rids := field(next, "RIDs"); rids.IsValid() { // CMP: commit(rid, c, F, A, Y, N, s, t)
+		rid := rids.MapIndex(self).Interface().(types.RID)
+		if what == "rid" {
+			rid = malformRID(rid, how)
+		} else {
+			ck = malformRID(ck, how)
+		}
+		vss := field(next, "VSSPolynomials").MapIndex(self).Interface()
+		sch := field(next, "SchnorrRand").Interface().(interface{ Commitment() *zksch.Commitment })
+		eg := field(next, "ElGamalPublic").MapIndex(self).Interface()
+		ped := field(next, "Pedersen").MapIndex(self).Interface().(*pedersen.Parameters)
+		com, dec, err := hf.HashForID(next.SelfID()).Commit(rid, ck, vss, sch.Commitment(), eg, ped.N(), ped.S(), ped.T())
+		if err != nil {
+			return
+		}
+		rids.SetMapIndex(self, reflect.ValueOf(rid))
+		cks.SetMapIndex(self, reflect.ValueOf(ck))
+		field(next, "Commitments").SetMapIndex(self, reflect.ValueOf(com))
+		field(next, "Decommitment").Set(reflect.ValueOf(dec))
+		c.newCommit = com
+		return
+	}
+	if what != "c" { // FROST commits to the chain-key contribution only
+		return
+	}
+	ck = malformRID(ck, how)
+	com, dec, err := hf.HashForID(next.SelfID()).Commit(ck)
+	if err != nil {
+		return
+	}
+	cks.SetMapIndex(self, reflect.ValueOf(ck))
+	field(next, "ChainKeyDecommitment").Set(reflect.ValueOf(dec))
+	c.newCommit = com
+}
+
 func (c *cheat) beforeSend(next round.Session, m *round.Message) {
+	if c.newCommit != nil {
+		if f := field(m.Content, "Commitment"); f.IsValid() && f.CanSet() && f.Type() == reflect.TypeOf(c.newCommit) {
+			f.Set(reflect.ValueOf(c.newCommit))
+		}
+	}
 	if c.rule == "delta" && typeName(m.Content) == "broadcast4" {
 		f := field(m.Content, "DeltaShare")
 		cur := f.Interface().(curve.Scalar)
@@ -134,6 +211,7 @@ func (p *proxy) Finalize(out chan<- *round.Message) (round.Session, error) {
 	next, err := p.Session.Finalize(tmp)
 	close(tmp)
 	if next != nil && err == nil {
+		p.c.recommit(next)
 		p.c.after(next)
 		if p.c.observe != nil {
 			p.c.observe(next)
@@ -280,6 +358,23 @@ func CmpDealerCheat(s *Session, cheater party.ID, kind string, sid []byte, mk fu
 			}
 			f.Set(reflect.ValueOf(polynomial.NewPolynomial(r.Group(), deg, c)))
 			return r, nil
+		}
+	}, sid)
+}
+
+// CommitCheat: `cheater` commits in round 1 of a key generation / refresh to a malformed chain-key contribution or RID
+// (rule: c-short | c-long | c-empty | rid-short | rid-long | rid-empty) and opens it consistently later - the
+// decommitment check passes, only the validation of the opened value can stop it.
+func CommitCheat(s *Session, cheater party.ID, rule string, sid []byte, mk func() protocol.StartFunc) {
+	c := &cheat{commitRule: rule}
+	s.Makers[cheater] = multi(func() protocol.StartFunc {
+		inner := mk()
+		return func(sessionID []byte) (round.Session, error) {
+			r, err := inner(sessionID)
+			if err != nil {
+				return nil, err
+			}
+			return wrap(r, c), nil
 		}
 	}, sid)
 }
